@@ -13,6 +13,8 @@
    run by tools/c10.py, which injects one I/O error at EVERY storage operation (reads and length queries
    included, during open too) of every generated history: the call must answer an error — never success, a panic
    or a hang — and reopening must show the before-or-after state with everything earlier intact. *)
+From HC Require FaultReplicaEx.
+From HC Require Import FaultReplica.
 From HC Require SrcOrder OrderTie.
 From HC Require Import Refine ClearRefine Unified1 CrashClear1 CrashClear2 CrashClear4.
 From HC Require Import Base NMap Codec Crypto FlatTree Storage Bitfield Oplog Merkle Core CoreFacts Fault.
@@ -133,6 +135,227 @@ Theorem C10_source_propagates_every_storage_result :
   OrderTie.tied_order SrcOrder.src_unpropagated_flush_bitfield_and_tree_and_oplog 0%N.
 Proof. exact OrderTie.source_propagates_every_storage_result. Qed.
 
+Theorem C10_failed_apply_recovers :
+  forall cr : crypto,
+         OplogFacts.crc_ok cr ->
+         (forall x : bytes, Datatypes.length (cr_hash cr x) = 32%nat) ->
+         (forall x : bytes, all_zero (cr_hash cr x) = false) ->
+         (forall x : bytes, bytes_ok (cr_hash cr x) = true) ->
+         forall bs : list bytes,
+         SoundCoreLib.writer_fits bs ->
+         forall (f : option bool) (pf : proof) (c : core) (d : disk) (j : list sop) 
+           (ev : list event) (H : N -> bool) (c' : core) (w' : world) (delta : list sop) 
+           (k : nat),
+         ReplicaDisk1.RDInv cr bs c d H ->
+         ReplicaDisk3.rd_proof_ok pf ->
+         core_apply_proof cr f pf c {| w_disk := d; w_journal := j; w_events := ev |} = (c', w', Ok true) ->
+         w_journal w' = rev delta ++ j ->
+         (k < Datatypes.length delta)%nat ->
+         exists (ck : core) (wk : world),
+           core_apply_proof_E cr (emit_lim (Datatypes.length j + k)) f pf c
+             {| w_disk := d; w_journal := j; w_events := ev |} = (ck, wk, Err IOErr) /\
+           w_journal wk = rev (firstn k delta) ++ j /\
+           apply_sops d (firstn k delta) = Some (w_disk wk) /\
+           w_events wk = ev /\
+           ((exists (c2 : core) (d2 : disk) (rops : list sop),
+               core_open cr None true (w_disk wk) = (d2, rops, Ok c2) /\
+               c_keypair c2 = c_keypair c /\
+               (if (k <=? ReplicaDisk4.commit_point pf)%nat
+                then
+                 ReplicaDisk1.RDInv cr bs c2 d2 H /\
+                 ReplicaDisk1.obs_replica bs c2 d2 H (t_length (c_tree c)) /\
+                 t_length (c_tree c2) = t_length (c_tree c)
+                else
+                 ReplicaDisk1.RDInv cr bs c2 d2 (ReplicaDisk3.hold H (p_block pf)) /\
+                 ReplicaDisk1.obs_replica bs c2 d2 (ReplicaDisk3.hold H (p_block pf)) (t_length (c_tree c')) /\
+                 t_length (c_tree c2) = t_length (c_tree c'))) \/
+            Sound.some_collision cr \/ SoundCore.forged_signature cr bs (kp_public (c_keypair c))).
+Proof. exact failed_apply_recovers. Qed.
+
+Theorem C10_refused_apply_no_fault :
+  forall (cr : crypto) (f : option bool) (pf : proof) (c : core) (d : disk) 
+           (j : list sop) (ev : list event) (c' : core) (w' : world) (k : nat),
+         core_apply_proof cr f pf c {| w_disk := d; w_journal := j; w_events := ev |} = (c', w', Ok false) ->
+         core_apply_proof_E cr (emit_lim (Datatypes.length j + k)) f pf c
+           {| w_disk := d; w_journal := j; w_events := ev |} =
+         (c, {| w_disk := d; w_journal := j; w_events := ev |}, Ok false).
+Proof. exact refused_apply_no_fault. Qed.
+
+Theorem C10_failed_make_read_only_recovers :
+  forall cr : crypto,
+         OplogFacts.crc_ok cr ->
+         (forall x : bytes, Datatypes.length (cr_hash cr x) = 32%nat) ->
+         (forall x : bytes, all_zero (cr_hash cr x) = false) ->
+         (forall x : bytes, bytes_ok (cr_hash cr x) = true) ->
+         forall (c : core) (d : disk) (j : list sop) (ev : list event) (bs : list bytes) 
+           (cl : N -> bool) (k : nat),
+         YInv cr c d bs cl ->
+         (k < Datatypes.length (ReadOnly.ro_ops cr c))%nat ->
+         exists (ck : core) (wk : world),
+           core_make_read_only_E cr (emit_lim (Datatypes.length j + k)) c
+             {| w_disk := d; w_journal := j; w_events := ev |} = (ck, wk, Err IOErr) /\
+           w_journal wk = rev (firstn k (ReadOnly.ro_ops cr c)) ++ j /\
+           apply_sops d (firstn k (ReadOnly.ro_ops cr c)) = Some (w_disk wk) /\
+           w_events wk = ev /\
+           (exists (d2 : disk) (rops : list sop) (c2 : core),
+              core_open cr None true (w_disk wk) = (d2, rops, Ok c2) /\
+              (rops = [] /\ d2 = w_disk wk \/ rops = [ST Oplog ENTRIES_OFFSET]) /\
+              YInv cr c2 d2 bs cl /\
+              obs_cleared c2 d2 bs cl /\
+              ReadOnly.same_reads c d c2 d2 /\
+              kp_public (c_keypair c2) = kp_public (c_keypair c) /\
+              ((k <= ReadOnlyClear.ro_np c)%nat ->
+               c_keypair c2 = c_keypair c /\ i_writeable (core_info c2) = i_writeable (core_info c)) /\
+              ((ReadOnlyClear.ro_np c < k)%nat ->
+               c_keypair c2 = {| kp_public := kp_public (c_keypair c); kp_secret := None |} /\
+               i_writeable (core_info c2) = false) /\
+              (forall (j2 : list sop) (ev2 : list event),
+               exists (c3 : core) (d3 : disk),
+                 core_make_read_only cr c2 {| w_disk := d2; w_journal := j2; w_events := ev2 |} =
+                 (c3, {| w_disk := d3; w_journal := rev (ReadOnly.ro_ops cr c2) ++ j2; w_events := ev2 |},
+                  Ok (i_writeable (core_info c2))) /\
+                 f_content (d_oplog d3) = ReadOnly.ro_oplog_file cr c2 /\
+                 YInv cr c3 d3 bs cl /\
+                 ReadOnly.same_reads c d c3 d3 /\
+                 kp_secret (c_keypair c3) = None /\ kp_secret (hd_keypair (c_header c3)) = None)).
+Proof. exact failed_make_read_only_recovers. Qed.
+
+Theorem C10_failed_replica_make_read_only_recovers :
+  forall cr : crypto,
+         OplogFacts.crc_ok cr ->
+         (forall x : bytes, Datatypes.length (cr_hash cr x) = 32%nat) ->
+         (forall x : bytes, all_zero (cr_hash cr x) = false) ->
+         (forall x : bytes, bytes_ok (cr_hash cr x) = true) ->
+         forall bs : list bytes,
+         SoundCoreLib.writer_fits bs ->
+         forall (c : core) (d : disk) (j : list sop) (ev : list event) (H : N -> bool) (k : nat),
+         ReplicaDisk1.RDInv cr bs c d H ->
+         (k < Datatypes.length (ReadOnly.ro_ops cr c))%nat ->
+         exists (ck : core) (wk : world),
+           core_make_read_only_E cr (emit_lim (Datatypes.length j + k)) c
+             {| w_disk := d; w_journal := j; w_events := ev |} = (ck, wk, Err IOErr) /\
+           w_journal wk = rev (firstn k (ReadOnly.ro_ops cr c)) ++ j /\
+           apply_sops d (firstn k (ReadOnly.ro_ops cr c)) = Some (w_disk wk) /\
+           w_events wk = ev /\
+           (exists (c2 : core) (d2 : disk) (rops : list sop),
+              core_open cr None true (w_disk wk) = (d2, rops, Ok c2) /\
+              ReplicaDisk1.RDInv cr bs c2 d2 H /\
+              ReplicaDisk1.obs_replica bs c2 d2 H (t_length (c_tree c)) /\
+              c_keypair c2 = c_keypair c /\
+              t_length (c_tree c2) = t_length (c_tree c) /\
+              core_info c2 = core_info c /\
+              (forall i : N, core_has c2 i = core_has c i) /\
+              (forall (i : N) (j' : list sop) (ev' : list event),
+               snd (core_get i c2 {| w_disk := d2; w_journal := j'; w_events := ev' |}) =
+               snd (core_get i c {| w_disk := d; w_journal := j'; w_events := ev' |}))).
+Proof. exact failed_replica_make_read_only_recovers. Qed.
+
+Theorem C10_fault_surfaces_as_io_error :
+  forall (cr : crypto) (k : nat),
+         (forall (f : option bool) (batch : list bytes) (c : core) (d : disk) (j : list sop) 
+            (ev : list event) (c' : core) (w' : world) (r : res (N * N)),
+          core_append cr f batch c {| w_disk := d; w_journal := j; w_events := ev |} = (c', w', r) ->
+          let r' :=
+            snd
+              (core_append_E cr (emit_lim (Datatypes.length j + k)) f batch c
+                 {| w_disk := d; w_journal := j; w_events := ev |}) in
+          r' = r \/ r' = Err IOErr) /\
+         (forall (f : option bool) (s e : N) (c : core) (d : disk) (j : list sop) (ev : list event) 
+            (c' : core) (w' : world) (r : res unit),
+          core_clear cr f s e c {| w_disk := d; w_journal := j; w_events := ev |} = (c', w', r) ->
+          let r' :=
+            snd
+              (core_clear_E cr (emit_lim (Datatypes.length j + k)) f s e c
+                 {| w_disk := d; w_journal := j; w_events := ev |}) in
+          r' = r \/ r' = Err IOErr) /\
+         (forall (f : option bool) (pf : proof) (c : core) (d : disk) (j : list sop) 
+            (ev : list event) (c' : core) (w' : world) (r : res bool),
+          core_apply_proof cr f pf c {| w_disk := d; w_journal := j; w_events := ev |} = (c', w', r) ->
+          let r' :=
+            snd
+              (core_apply_proof_E cr (emit_lim (Datatypes.length j + k)) f pf c
+                 {| w_disk := d; w_journal := j; w_events := ev |}) in
+          r' = r \/ r' = Err IOErr) /\
+         (forall (c : core) (d : disk) (j : list sop) (ev : list event) (c' : core) (w' : world) (r : res bool),
+          core_make_read_only cr c {| w_disk := d; w_journal := j; w_events := ev |} = (c', w', r) ->
+          let r' :=
+            snd
+              (core_make_read_only_E cr (emit_lim (Datatypes.length j + k)) c
+                 {| w_disk := d; w_journal := j; w_events := ev |}) in
+          r' = r \/ r' = Err IOErr).
+Proof. exact fault_surfaces_as_io_error. Qed.
+
+Theorem C10_fault_any_outcome :
+  forall (A : Type) (m mf : M A) (k : nat) (c : core) (d : disk) (j : list sop) (ev : list event) 
+           (c' : core) (w' : world) (r : res A) (delta : list sop),
+         fsimA (Datatypes.length j + k) m mf ->
+         m c {| w_disk := d; w_journal := j; w_events := ev |} = (c', w', r) ->
+         w_journal w' = rev delta ++ j ->
+         (Datatypes.length delta <= k)%nat /\
+         mf c {| w_disk := d; w_journal := j; w_events := ev |} = (c', w', r) \/
+         (k <= Datatypes.length delta)%nat /\
+         (exists (ck : core) (wk : world),
+            mf c {| w_disk := d; w_journal := j; w_events := ev |} = (ck, wk, Err IOErr) /\
+            w_journal wk = rev (firstn k delta) ++ j /\ apply_sops d (firstn k delta) = Some (w_disk wk)).
+Proof. intros A. exact fault_any_outcome. Qed.
+
+Theorem C10_failed_open_recovers_writer :
+  forall cr : crypto,
+         OplogFacts.crc_ok cr ->
+         (forall x : bytes, Datatypes.length (cr_hash cr x) = 32%nat) ->
+         (forall x : bytes, all_zero (cr_hash cr x) = false) ->
+         (forall x : bytes, bytes_ok (cr_hash cr x) = true) ->
+         forall (kp : keypair) (d : disk) (bs : list bytes) (cl : N -> bool) (k : nat),
+         YDisk cr kp d bs cl ->
+         exists (c' : core) (d' : disk) (ops : list sop),
+           core_open cr None true d = (d', ops, Ok c') /\
+           YInv cr c' d' bs cl /\
+           c_keypair c' = kp /\
+           ((Datatypes.length ops <= k)%nat /\ core_open_F cr k None true d = (d', ops, Ok c') \/
+            (k < Datatypes.length ops)%nat /\ core_open_F cr k None true d = (d, [], Err IOErr)).
+Proof. exact failed_open_recovers_Y. Qed.
+
+Theorem C10_failed_open_recovers_replica :
+  forall cr : crypto,
+         OplogFacts.crc_ok cr ->
+         (forall x : bytes, Datatypes.length (cr_hash cr x) = 32%nat) ->
+         (forall x : bytes, all_zero (cr_hash cr x) = false) ->
+         (forall x : bytes, bytes_ok (cr_hash cr x) = true) ->
+         forall (bs : list bytes) (pk : bytes) (d : disk) (H : N -> bool) (r : N) (k : nat),
+         SoundCoreLib.writer_fits bs ->
+         ReplicaDisk1.RDisk cr bs pk d H r ->
+         exists (c' : core) (d' : disk) (ops : list sop),
+           core_open cr None true d = (d', ops, Ok c') /\
+           ReplicaDisk1.RDInv cr bs c' d' H /\
+           t_length (c_tree c') = r /\
+           c_keypair c' = {| kp_public := pk; kp_secret := None |} /\
+           ((Datatypes.length ops <= k)%nat /\ core_open_F cr k None true d = (d', ops, Ok c') \/
+            (k < Datatypes.length ops)%nat /\ core_open_F cr k None true d = (d, [], Err IOErr)).
+Proof. exact failed_open_recovers_R. Qed.
+
+Theorem C10_failed_create_recovers :
+  forall cr : crypto,
+         OplogFacts.crc_ok cr ->
+         (forall x : bytes, Datatypes.length (cr_hash cr x) = 32%nat) ->
+         (forall x : bytes, all_zero (cr_hash cr x) = false) ->
+         (forall x : bytes, bytes_ok (cr_hash cr x) = true) ->
+         forall (kp kp' : keypair) (k : nat),
+         OplogFacts.keypair_ok kp = true ->
+         OplogFacts.keypair_ok kp' = true ->
+         (k < 2)%nat ->
+         exists (d' : disk) (J : list sop) (c : core),
+           core_open cr (Some kp) false disk_empty = (d', J, Ok c) /\
+           Datatypes.length J = 2%nat /\
+           (exists dk : disk,
+              core_open_F cr k (Some kp) false disk_empty = (dk, firstn k J, Err IOErr) /\
+              apply_sops disk_empty (firstn k J) = Some dk /\
+              blank_disk dk /\
+              core_open cr None true dk = (dk, [], Err EmptyStorage) /\
+              (exists (d2 : disk) (J2 : list sop) (c2 : core),
+                 core_open cr (Some kp') false dk = (d2, J2, Ok c2) /\
+                 FInv cr c2 d2 [] (fun _ : N => false) /\ c_keypair c2 = kp')).
+Proof. exact failed_create_recovers. Qed.
+
 Print Assumptions C10_failed_flush_is_a_cut.
 Print Assumptions C10_fault_states_are_crash_cuts.
 Print Assumptions C10_journal_prefixes_apply.
@@ -143,3 +366,20 @@ Print Assumptions C10_failed_clear_recovers.
 Print Assumptions CrashClear4.toy_fault_in_clear.
 Print Assumptions CrashClear4.fault_then_continue_loses_acknowledged_appends.
 Print Assumptions C10_source_propagates_every_storage_result.
+Print Assumptions C10_failed_apply_recovers.
+Print Assumptions C10_refused_apply_no_fault.
+Print Assumptions C10_failed_make_read_only_recovers.
+Print Assumptions C10_failed_replica_make_read_only_recovers.
+Print Assumptions C10_fault_surfaces_as_io_error.
+Print Assumptions C10_fault_any_outcome.
+Print Assumptions C10_failed_open_recovers_writer.
+Print Assumptions C10_failed_open_recovers_replica.
+Print Assumptions C10_failed_create_recovers.
+Print Assumptions FaultReplicaEx.sc_fault_at_every_operation_of_apply.
+Print Assumptions FaultReplicaEx.sc_failed_apply_theorem_applies.
+Print Assumptions FaultReplicaEx.toy_fault_at_every_operation_of_make_read_only.
+Print Assumptions FaultReplicaEx.toy_failed_make_read_only_theorem_applies.
+Print Assumptions FaultReplicaEx.sc_fault_at_every_operation_of_replica_make_read_only.
+Print Assumptions FaultReplicaEx.toy_fault_in_creation.
+Print Assumptions FaultReplicaEx.toy_fault_in_repairing_open.
+Print Assumptions FaultReplicaEx.toy_failed_open_theorem_applies.
